@@ -106,8 +106,9 @@ func (e *Engine) discharge1(o *Obligation, dir string, idx int, timeoutS int, se
 		o.Solver = "simplifier"
 		return
 	}
-	if o.Kind == "cover" && timeoutS > 3 {
-		timeoutS = 3
+	coverOnly := o.Kind == "cover"
+	if coverOnly && timeoutS > 2 {
+		timeoutS = 2
 	}
 	c := o.Ctx
 	hyps := relevantFacts(c, o.NFacts, o.Goal)
@@ -146,29 +147,44 @@ func (e *Engine) discharge1(o *Obligation, dir string, idx int, timeoutS int, se
 		os.WriteFile(f, []byte(txt), 0o644)
 		return f
 	}
-	ctx, cancel := context.WithCancel(context.Background())
-	defer cancel()
-	results := make(chan solveResult, len(solvers))
-	var wg sync.WaitGroup
-	for _, sp := range solvers {
-		sp := sp
-		f := write(sp)
-		wg.Add(1)
-		go func() {
-			defer wg.Done()
-			results <- runSolver(ctx, sp, f, timeoutS, seed)
-		}()
-	}
-	go func() { wg.Wait(); close(results) }()
 	var all []solveResult
 	var win *solveResult
-	for r := range results {
-		r := r
+	// stage 1: the fastest solver alone with a short limit (decides the bulk of the obligations)
+	{
+		quick := 2
+		if timeoutS < quick {
+			quick = timeoutS
+		}
+		r := runSolver(context.Background(), solvers[0], write(solvers[0]), quick, seed)
 		all = append(all, r)
 		if r.status == "unsat" || r.status == "sat" {
 			win = &r
-			cancel()
-			break
+		}
+	}
+	// stage 2: the whole portfolio with the full limit
+	if win == nil && !coverOnly {
+		ctx, cancel := context.WithCancel(context.Background())
+		defer cancel()
+		results := make(chan solveResult, len(solvers))
+		var wg sync.WaitGroup
+		for _, sp := range solvers {
+			sp := sp
+			f := write(sp)
+			wg.Add(1)
+			go func() {
+				defer wg.Done()
+				results <- runSolver(ctx, sp, f, timeoutS, seed)
+			}()
+		}
+		go func() { wg.Wait(); close(results) }()
+		for r := range results {
+			r := r
+			all = append(all, r)
+			if r.status == "unsat" || r.status == "sat" {
+				win = &r
+				cancel()
+				break
+			}
 		}
 	}
 	if win == nil {
